@@ -17,3 +17,4 @@ import Boario.Properties.FormulasOrders
 import Boario.Properties.FormulasCurves
 import Boario.Properties.FormulasLedger
 import Boario.Properties.FormulasUnits
+import Boario.Properties.FormulasDamage
